@@ -68,6 +68,7 @@ func checkCross(t *testing.T, c Case) (v harness.Verdict) {
 	}
 	pending, size := 0, 0
 	seen := map[uint32]bool{}
+	seenCert := map[string]bool{}
 	var hashes [][]byte
 	cmp := func(path, q string) {
 		ra, rb := a.Get(path, q), b.Get(path, q)
@@ -94,6 +95,10 @@ func checkCross(t *testing.T, c Case) (v harness.Verdict) {
 			}
 			seen[op.Spec.ID] = true
 			bt := world.Build(*op.Spec)
+			if seenCert[string(bt.Leaf.DER)] {
+				continue // the same root submitted on its own again: a duplicate
+			}
+			seenCert[string(bt.Leaf.DER)] = true
 			path := "/ct/v1/add-chain"
 			if bt.Spec.Precert {
 				path = "/ct/v1/add-pre-chain"
